@@ -33,14 +33,19 @@ impl Tier {
 }
 
 pub const VERIF_DIR: &str = "/verif";
+/// where replays, evidence and scratch files are written (VERIF_OUT overrides; used by the seed
+/// matrix tool to run checks against scratch copies without touching /verif)
+pub fn out_dir() -> String {
+    std::env::var("VERIF_OUT").unwrap_or_else(|_| VERIF_DIR.to_string())
+}
 /// a single generated case normally takes microseconds to milliseconds
 pub const HANG_SECS: u64 = 30;
 
 /// A case did not return. For C06 ("never panics or hangs") that is the property; for every other
 /// property it is reported as inconclusive (exit 2), never as a violation.
 pub fn on_hang(prop: &str, sub: &str, seed: u64, tape: &[u32]) -> ! {
-    let _ = std::fs::create_dir_all(format!("{VERIF_DIR}/replays"));
-    let path = format!("{VERIF_DIR}/replays/{prop}-{sub}-hang-{:016x}.json", hash_str(&format!("{tape:?}")));
+    let _ = std::fs::create_dir_all(format!("{}/replays", out_dir()));
+    let path = format!("{}/replays/{prop}-{sub}-hang-{:016x}.json", out_dir(), hash_str(&format!("{tape:?}")));
     let body = json!({"property": prop, "subcheck": sub, "seed": seed, "replay": {"tape": tape}, "signature": format!("{prop}/hang"),
         "message": format!("a generated case did not return within {HANG_SECS} s"), "case": null});
     let _ = std::fs::write(&path, serde_json::to_string_pretty(&body).unwrap());
@@ -271,8 +276,8 @@ fn run_tape_sub(prop: &str, sub: &SubCheck, seed: u64, cases: u64, len: usize, f
                                 let fl = match guard(|| f(&tape, &mut scratch)) {
                                     Ok(Err(fl)) => fl,
                                     Ok(Ok(())) => fail(
-                                        "flaky",
-                                        format!("shrunk case passes on re-run (reason was: {reason})"),
+                                        "not-reproducible-in-isolation",
+                                        format!("the failing case passes when re-run in isolation, i.e. the failure depends on what the thread handled before (first failure: {reason})"),
                                         json!(null),
                                     ),
                                     Err(p) => fail("harness-panic", format!("panic in check: {p}"), json!(null)),
@@ -442,7 +447,7 @@ pub fn run_property(prop: &str, level_text: &str, subs: &[SubCheck], tier: Tier,
     let mut violations = 0usize;
     let mut known_hits: BTreeMap<String, usize> = BTreeMap::new();
     let mut seen_sigs: HashSet<String> = HashSet::new();
-    let _ = std::fs::create_dir_all(format!("{VERIF_DIR}/replays"));
+    let _ = std::fs::create_dir_all(format!("{}/replays", out_dir()));
     for r in &reports {
         for (fl, desc) in &r.failures {
             let kf = known
@@ -473,7 +478,8 @@ pub fn run_property(prop: &str, level_text: &str, subs: &[SubCheck], tier: Tier,
             });
             let text = serde_json::to_string_pretty(&body).unwrap();
             let path = format!(
-                "{VERIF_DIR}/replays/{prop}-{}-{:016x}.json",
+                "{}/replays/{prop}-{}-{:016x}.json",
+                out_dir(),
                 r.name,
                 hash_str(&format!("{}{}", fl.signature, desc))
             );
@@ -527,8 +533,8 @@ pub fn run_property(prop: &str, level_text: &str, subs: &[SubCheck], tier: Tier,
         "violations": violations,
         "known_findings_reported": known_hits,
     });
-    let _ = std::fs::create_dir_all(format!("{VERIF_DIR}/evidence"));
-    let evp = format!("{VERIF_DIR}/evidence/{prop}.json");
+    let _ = std::fs::create_dir_all(format!("{}/evidence", out_dir()));
+    let evp = format!("{}/evidence/{prop}.json", out_dir());
     if let Err(e) = std::fs::write(&evp, serde_json::to_string_pretty(&ev).unwrap()) {
         eprintln!("cannot write evidence {evp}: {e}");
     }
